@@ -73,8 +73,12 @@ Definition umatches (m : result unit) (o : obs) : bool :=
   end.
 Definition ord_rev : path -> list string -> list string := fun _ l => rev l.
 Definition ordp_rev : string -> list participant -> list participant := fun _ l => rev l.
-Definition bad {A} (l : list (nat * A * A * obs)) (f : A -> obs -> bool) : list nat :=
-  flat_map (fun c => match c with (i, m1, m2, o) => if f m1 o && f m2 o then [] else [i] end) l.
+Definition oracle_fn (A : Type) : Type :=
+  (path -> list string -> list string) -> (string -> list participant -> list participant) -> A.
+(* every case is evaluated under the identity oracles and under the reversing ones *)
+Definition bad {A} (l : list (nat * oracle_fn A * obs)) (f : A -> obs -> bool) : list nat :=
+  flat_map (fun c => match c with (i, m, o) =>
+     if f (m ord_id ordp_id) o && f (m ord_rev ordp_rev) o then [] else [i] end) l.
 """
 
 
@@ -95,8 +99,13 @@ def build_groups(chk: Check):
     for text, variants in templates:
         a = cc.parse_assignment(text)
         all_variants = [{}] + list(variants)
-        if not thorough and len(all_variants) > 2:
-            all_variants = [all_variants[0], chk.rng.choice(all_variants[1:])]
+        if not thorough:
+            # quick: every template once; the templates the property names twice (dense + a sparse variant)
+            key = any(k in text for k in ("B(j,i)", "+ d(i)", "b(i,j) * c(j)", "A(i,j) * x(j)", "B(i,k) * C(k,j)"))
+            if len(all_variants) > 1 and key:
+                all_variants = [all_variants[0], chk.rng.choice(all_variants[1:])]
+            elif len(all_variants) > 1:
+                all_variants = [chk.rng.choice(all_variants)]
         palettes = [(2, 3, 4, 5, 6, 7)] + ([(1, 2, 1, 3, 2, 1)] if thorough else [])
         for vi, fm in enumerate(all_variants):
             for backend in backends:
@@ -107,7 +116,7 @@ def build_groups(chk: Check):
                     kws = gen.base_keywords(a, fm, sizes)
                     # formats handed to tensor_method: all of them, or (variant 0) none -> dense defaults
                     given = dict(fm)
-                    if vi == 1 and variants:
+                    if fm and len(fm) > 1 and chk.rng.random() < 0.5:
                         # hand the dict over in a scrambled order: make_problem must reorder it
                         items = list(given.items())
                         chk.rng.shuffle(items)
@@ -121,7 +130,7 @@ def build_groups(chk: Check):
                     gid += 1
         # evaluate(): the formats come from the arguments themselves
         ev_entries = ["evaluate"] + (["evaluate_cffi"] if thorough else [])
-        take_eval = thorough or (gid % 3 == 0) or "B(j,i)" in text or "d(i)" in text
+        take_eval = thorough or (len(groups) % 4 == 0) or "B(j,i)" in text or "+ d(i)" in text
         if take_eval:
             for entry in ev_entries:
                 fm = variants[0] if (variants and entry == "evaluate") else {}
@@ -248,40 +257,73 @@ def obs_term(r):
     return f"(OError {cc.cstr(r['cls'])} {cc.cstr(r.get('tag', ''))} {cc.cstr(r.get('name', ''))})"
 
 
-def model_term(g, c, oracles="ord_id ordp_id"):
-    a = cc.coq_assignment(cc.parse_assignment(g["assignment"]))
+class Defs:
+    """shared sub-terms of one generated .v file (big string terms are slow to type-check)"""
+
+    def __init__(self):
+        self.names = {}
+        self.lines = []
+
+    TYPES = {"a": "assignment", "f": "list (string * format)", "o": "format", "x": "argument"}
+
+    def name(self, prefix, term):
+        key = (prefix, term)
+        if key not in self.names:
+            n = f"{prefix}{len(self.names)}"
+            self.names[key] = n
+            self.lines.append(f"Definition {n} : {self.TYPES[prefix]} := {term}.")
+        return self.names[key]
+
+    def text(self):
+        return "\n".join(self.lines)
+
+
+def coq_argument_shared(defs, spec):
+    t = cc.coq_argument(spec)
+    return t if t == "ANotTensor" else defs.name("x", t)
+
+
+def model_fn(g, c, defs=None):
+    """the model's verdict as a function of the two oracles: (fun o op => ...)"""
+    defs = defs or Defs()
+    a = defs.name("a", cc.coq_assignment(cc.parse_assignment(g["assignment"])))
+    pos = cc.clist(coq_argument_shared(defs, s) for s in c["positional"])
+    kws = cc.clist("(" + cc.cstr(n) + ", " + coq_argument_shared(defs, s) + ")" for n, s in c["keywords"])
     if g["entry"] == "tensor_method":
-        return (f"(tensor_method_call {oracles} {a} {cc.coq_formats(g['formats'])} "
-                f"{cc.coq_call_args(c['positional'], c['keywords'])})")
-    kws = cc.clist("(" + cc.cstr(n) + ", " + cc.coq_argument(s) + ")" for n, s in c["keywords"])
-    return f"(evaluate {oracles} {a} {cc.coq_format(g['output_format'])} {kws})"
+        fs = defs.name("f", cc.coq_formats(g["formats"]))
+        return f"(fun o op => tensor_method_call o op {a} {fs} (CallArgs {pos} {kws}))"
+    of = defs.name("o", cc.coq_format(g["output_format"]))
+    return f"(fun o op => evaluate o op {a} {of} {kws})"
 
 
-def ctor_model_term(c, oracle="ord_id"):
-    a = cc.coq_assignment(cc.parse_assignment(c["assignment"]))
-    fs = cc.coq_formats(c["formats"])
+def ctor_model_fn(c, defs=None):
+    defs = defs or Defs()
+    a = defs.name("a", cc.coq_assignment(cc.parse_assignment(c["assignment"])))
+    fs = defs.name("f", cc.coq_formats(c["formats"]))
     if c["kind"] == "assignment":
-        return f"(assignment_check {a})", "umatches"
+        return f"(fun o op => assignment_check {a})", "umatches"
     if c["kind"] == "Problem":
-        return f"(bind_result (assignment_check {a}) (fun _ => problem_ctor {a} {fs}))", "rmatches"
+        return f"(fun o op => bind_result (assignment_check {a}) (fun _ => problem_ctor {a} {fs}))", "rmatches"
     if c["kind"] == "make_problem":
-        return f"(bind_result (assignment_check {a}) (fun _ => make_problem {a} {fs}))", "rmatches"
-    return (f"(bind_result (assignment_check {a}) (fun _ => bind_result (problem_ctor {a} {fs}) "
-            f"(fun p => tm_init {oracle} p)))"), "umatches"
+        return f"(fun o op => bind_result (assignment_check {a}) (fun _ => make_problem {a} {fs}))", "rmatches"
+    return (f"(fun o op => bind_result (assignment_check {a}) (fun _ => bind_result (problem_ctor {a} {fs}) "
+            f"(fun p => tm_init o p)))"), "umatches"
 
 
 def coq_compare(chk: Check, name: str, entries, fn: str):
-    """entries: [(index, model term (oracle id), model term (reversed oracle), obs term)] -> failing indexes"""
+    """entries: [(index, render(defs) -> model function term, obs term)] -> failing indexes"""
     files = []
     for k in range(0, len(entries), 400):
         part = entries[k:k + 400]
-        body = ";\n ".join(f"({i}%nat, {m1}, {m2}, {o})" for i, m1, m2, o in part)
-        files.append((f"{name}_{k // 400}", PREAMBLE + f"\nEval vm_compute in (bad [\n {body}] {fn}).\n"))
+        defs = Defs()
+        rows = [f"({i}%nat, {render(defs)}, {o})" for i, render, o in part]
+        body = ";\n ".join(rows)
+        files.append((f"{name}_{k // 400}", PREAMBLE + "\n" + defs.text() + f"\nEval vm_compute in (bad [\n {body}] {fn}).\n"))
     failing = []
     problems = []
 
     def one(f):
-        return f[0], chk.coq_eval(f[0], f[1], timeout=600)
+        return f[0], chk.coq_eval(f[0], f[1], timeout=900)
 
     with ThreadPoolExecutor(max_workers=8) as ex:
         for fname, (ok, out) in ex.map(one, files):
@@ -297,8 +339,10 @@ def coq_compare(chk: Check, name: str, entries, fn: str):
     return failing, problems
 
 
-def model_alone(chk: Check, term: str) -> str:
-    ok, out = chk.coq_eval("c10_single", PREAMBLE + f"\nEval vm_compute in {term}.\n", timeout=300)
+def model_alone_case(chk: Check, fn_render) -> str:
+    defs = Defs()
+    t = fn_render(defs)
+    ok, out = chk.coq_eval("c10_single", PREAMBLE + "\n" + defs.text() + f"\nEval vm_compute in ({t} ord_id ordp_id).\n", timeout=300)
     return out.strip()[-1200:]
 
 
@@ -369,6 +413,17 @@ def judge(chk: Check, g, c, r):
     return ok, why, None, False
 
 
+MAX_VIOLATIONS = 6
+
+
+def report(chk: Check, what, payload):
+    """at most MAX_VIOLATIONS replay files per run; the rest are only counted"""
+    if len(chk.violations) < MAX_VIOLATIONS:
+        chk.violation(what, payload)
+    else:
+        chk.count("violations_not_listed")
+
+
 def run(chk: Check):
     chk.rule = ("assignment templates (tensor reused with different index lists, 3- and 4-participant indexes, "
                 "contractions, scalars, literals) x format variants x backends; a consistent argument set "
@@ -436,9 +491,8 @@ def run(chk: Check):
         if r.get("outcome") == "error" and r.get("cls") in ("DiagonalAccessError", "NoKernelFoundError"):
             chk.count("ctor_generation_refused")
             continue
-        t1, fn = ctor_model_term(c, "ord_id")
-        t2, _ = ctor_model_term(c, "ord_rev")
-        entries.append((c["cid"], fn, t1, t2, obs_term(r)))
+        fn = ctor_model_fn(c)[1]
+        entries.append((c["cid"], fn, (lambda d, c=c: ctor_model_fn(c, d)[0]), obs_term(r)))
         chk.case(("ctor", c["kind"], c["assignment"], c["formats"]))
         chk.count("ctor:" + c["kind"])
         chk.count("ctor_outcome:" + (r.get("cls") or "ok"))
@@ -447,7 +501,7 @@ def run(chk: Check):
     def ctor_compare():
         out = []
         for fn in ("umatches", "rmatches"):
-            sub = [(i, a, b, o) for i, f, a, b, o in ctor_entries if f == fn]
+            sub = [(i, a, o) for i, f, a, o in ctor_entries if f == fn]
             out.append(coq_compare(chk, f"c10_ctor_{fn}", sub, fn))
         return out
 
@@ -462,8 +516,8 @@ def run(chk: Check):
     for cr in crashes:
         g, c = by_cid.get(cr["last_started_cid"], (None, None))
         if c is not None:
-            chk.violation("the process died inside a call (crash instead of a refusal)",
-                          {"group": {**g, "cases": [c]}, "crash": cr})
+            report(chk, "the process died inside a call (crash instead of a refusal)",
+                   {"group": {**g, "cases": [c]}, "crash": cr})
         else:
             chk.broken.append({"kind": "harness", "what": "c10_run.py died outside a case", **cr})
 
@@ -477,12 +531,12 @@ def run(chk: Check):
                 chk.count("generation_refused")
                 continue
             for c in g["cases"]:
-                entries.append((c["cid"], model_term(g, c), model_term(g, c, "ord_rev ordp_rev"), obs_term(con)))
+                entries.append((c["cid"], (lambda d, g=g, c=c: model_fn(g, c, d)), obs_term(con)))
                 chk.case(("call", g["entry"], g["assignment"], g["formats"], g["backend"], c["label"]))
                 chk.count("outcome:" + con["cls"])
                 if con["cls"] not in ALLOWED:
-                    chk.violation("construction refused with an undocumented exception",
-                                  {"group": {**g, "cases": [c]}, "implementation": con})
+                    report(chk, "construction refused with an undocumented exception",
+                           {"group": {**g, "cases": [c]}, "implementation": con})
             continue
         for c in g["cases"]:
             r = results.get(c["cid"])
@@ -498,7 +552,7 @@ def run(chk: Check):
             chk.count("mutation:" + c["label"].split(":")[0])
             chk.count("outcome:" + (r.get("cls") or r["outcome"]))
             chk.count("entry:" + g["entry"] + ":" + g["backend"])
-            entries.append((c["cid"], model_term(g, c), model_term(g, c, "ord_rev ordp_rev"), obs_term(r)))
+            entries.append((c["cid"], (lambda d, g=g, c=c: model_fn(g, c, d)), obs_term(r)))
             ok, why, failure, is_violation = judge(chk, g, c, r)
             chk.count("consistent" if ok else "inconsistent")
             if failure:
@@ -507,9 +561,9 @@ def run(chk: Check):
                     chk.known_finding(kf.get("id", "?"), kf.get("what", failure))
                     chk.count("known:" + kf.get("id", "?"))
                 elif is_violation:
-                    chk.violation(failure, {"group": {**g, "cases": [c]}, "implementation": r,
-                                            "expected": "refusal with TypeError/ValueError/problem error before the kernel"
-                                            if not ok else {"entered_with_dims": why}})
+                    report(chk, failure, {"group": {**g, "cases": [c]}, "implementation": r,
+                                          "expected": "refusal with TypeError/ValueError/problem error before the kernel"
+                                          if not ok else {"entered_with_dims": why}})
                 else:
                     chk.broken.append({"kind": "correspondence", "what": failure, "group": {**g, "cases": [c]},
                                        "implementation": r})
@@ -527,7 +581,7 @@ def run(chk: Check):
             c = ctor[i]
             chk.broken.append({"kind": "correspondence", "what": "constructor outcome differs from the model",
                                "case": c, "implementation": cres[i],
-                               "model": model_alone(chk, ctor_model_term(c)[0])})
+                               "model": model_alone_case(chk, lambda d, c=c: ctor_model_fn(c, d)[0])})
     bg.shutdown()
     failing, problems = coq_compare(chk, "c10_calls", entries, "matches")
     for p in problems:
@@ -539,7 +593,7 @@ def run(chk: Check):
             continue
         chk.broken.append({"kind": "correspondence", "what": "implementation outcome differs from the model's",
                            "group": {**g, "cases": [c]}, "implementation": r,
-                           "model": model_alone(chk, model_term(g, c))})
+                           "model": model_alone_case(chk, lambda d, g=g, c=c: model_fn(g, c, d))})
     chk.count("model_disagreements", len(failing))
     timings["coq_calls"] = round(time.time() - t0, 1)
     chk.extra["searcher"] = "the single-fault enumeration above is the searcher (always run)"
@@ -562,7 +616,7 @@ def replay(chk: Check, payload):
     for c in g["cases"]:
         r = results.get(c["cid"]) or constructions.get(0)
         print("case", c["label"], "->", json.dumps(r))
-        print("model:", model_alone(chk, model_term(g, c)))
+        print("model:", model_alone_case(chk, lambda d, g=g, c=c: model_fn(g, c, d)))
         if r and r.get("outcome") != "skip" and "cls" not in (constructions.get(0) or {}):
             ok, why, failure, is_violation = judge(chk, g, c, r)
             print("consistent:", ok, why)
